@@ -114,6 +114,8 @@ ADVERSARIAL = [
     (b'abab', build(b'abab', [(b'k: v', b'\r\n--ab\r\n--aba\r\n--ababx'[:-5] + b'q\r\n--a'), (b'\r', b'\r\n--aba')], epilogue=b'')),
     (b'aab', build(b'aab', [(b'h\r\nj', b'\r\n--a\r\n--aa\r\n--a\r\r\n--aaa'), (b'z', b'')], epilogue=b'\r\n\r\n')),
     (b'\n-', build(b'\n-', [(b'p', b'\r\n--\r\n--\n\r\n-'), (b'q', b'\n')], epilogue=b'x')),
+    # header blocks at the edge of wf_prefix: empty block, lone CR, lone LF inside a line
+    (b'B', build(b'B', [(b'', b'x'), (b'\r', b''), (b'a\nb\r\nc\rd', b'\r\n')], epilogue=CRLF)),
 ]
 
 
@@ -187,7 +189,7 @@ def corpus():
         out.append(mk(sb, [list(SUITE_BODY[i:i + k]) for i in range(0, len(SUITE_BODY), k)], wf=True, label='suite body, k=%d' % k))
     for buf in (1, 40, 41, 42, 43, 44, 100, 150, 333, 376, 377, 378, 1000):
         out.append(mk_wsgi(sb, SUITE_BODY, buf, wf=True))
-    for B, body in ADVERSARIAL[:6]:
+    for B, body in ADVERSARIAL[:6] + ADVERSARIAL[7:]:
         for i in range(0, len(body) + 1):
             out.append(mk(B, cut(body, [i]), wf=True, label='single cut'))
         out.append(mk(B, [[x] for x in body], wf=True, label='byte at a time'))
@@ -231,7 +233,13 @@ def gen_data(rng, tok, maxlen=18):
     return b''
 
 
-def gen_hdrs(rng, real):
+EXOTIC_LINES = [b'', b'\r', b'\n', b'a\rb', b'a\nb', b'\n\r', b'\r\r', b'x', b'--', b'\ra', b'a\r']
+
+
+def gen_hdrs(rng, real, exotic=False):
+    if exotic:
+        # header blocks allowed by wf_prefix beyond "non-empty lines free of CR and LF": empty block, lone CR / LF
+        return CRLF.join(rng.choice(EXOTIC_LINES) for _ in range(rng.randrange(0, 3)))
     if real:
         name = rng.choice([b'a', b'f1', b'text', b'n-1'])
         if rng.random() < 0.5:
@@ -248,13 +256,14 @@ def gen_body(rng, real=False):
     if real:
         B = rng.choice([b'B', b'abab', b'--', b'-', b'x-x', b'----WebKitFormBoundaryX'])
     tok = b'\r\n--' + B
-    parts = [(gen_hdrs(rng, real), gen_data(rng, tok)) for _ in range(rng.choice([0, 1, 1, 2, 2, 3, 4]))]
+    exotic = (not real) and rng.random() < 0.15
+    parts = [(gen_hdrs(rng, real, exotic), gen_data(rng, tok)) for _ in range(rng.choice([0, 1, 1, 2, 2, 3, 4]))]
     close = rng.random() < 0.8
     epi = b''
     if close and rng.random() < 0.6:
         epi = rng.choice([CRLF, b'\r', b'-', b'--', b'x', b'\r\n--' + B, b'\r\n\r\n', gen_data(rng, b'\r\n--zz')])
     body = build(B, parts, lead=rng.random() < 0.3, close=close, epilogue=epi)
-    return B, body
+    return B, body, (None if exotic else True)
 
 
 def gen_cuts(rng, B, body):
@@ -299,17 +308,17 @@ def gen(rng, n):
     for _ in range(n):
         r = rng.random()
         if r < 0.62:
-            B, body = gen_body(rng)
+            B, body, wf = gen_body(rng)
             if rng.random() < 0.6:
                 body = body[:rng.randrange(0, len(body) + 1)]
-            yield mk(B, gen_cuts(rng, B, body), wf=True, label='grammar')
+            yield mk(B, gen_cuts(rng, B, body), wf=wf, label='grammar' if wf else 'grammar-exotic-headers')
         elif r < 0.72:
-            B, body = gen_body(rng, real=True)
+            B, body, _ = gen_body(rng, real=True)
             if rng.random() < 0.3:
                 body = body[:rng.randrange(0, len(body) + 1)]
             yield mk_wsgi(B, body, rng.randrange(1, len(body) + 3), wf=True)
         elif r < 0.9:
-            B, body = gen_body(rng)
+            B, body, _ = gen_body(rng)
             body = mutate(rng, body)
             if rng.random() < 0.4:
                 body = body[:rng.randrange(0, len(body) + 1)]
